@@ -589,8 +589,14 @@ pub fn corpus() -> &'static Vec<Vec<Vec<u8>>> {
 // Byzantine mutations of a message body (applied before sealing => CRC re-sealed)
 // ---------------------------------------------------------------------------
 
-pub const INFLATE_VALUES: [u128; 22] = [
+pub const INFLATE_VALUES: [u128; 28] = [
     0x10,
+    0x103,
+    0x104,
+    0x107,
+    0x1_0004,
+    0x1_0006,
+    0x100_0005,
     0xff,
     0x100,
     0xffff,
@@ -627,6 +633,9 @@ pub const STRUCT_OPS: &[&str] = &[
     "truncate-body",
     "insert-junk",
     "wrap-length",
+    "rewidth",
+    "substitute-field",
+    "long-field",
 ];
 
 /// apply one structural mutation; returns its name (None if nothing could be done)
@@ -718,6 +727,66 @@ pub fn mutate_body(rng: &mut Rng, body: &mut Vec<u8>, op: &str) -> Option<String
             body.truncate(at);
             Some(format!("truncate-body(at={})", at))
         }
+        "rewidth" => {
+            // re-encode an integer field with another width (1..=8 value bytes): stays inside its
+            // width class, changes class, or becomes an over-long / shortened encoding
+            let s = pick_site(rng, &|s| (s.ty == TY_INT || s.ty == TY_UINT) && s.len >= 1 && s.len <= 8)?;
+            let old: Vec<u8> = body[s.off + s.tlf_size..s.end].to_vec();
+            let w = rng.range(1, 8);
+            let mut val = vec![if s.ty == TY_INT && old[0] > 0x7f { 0xff } else { 0x00 }; w];
+            for (i, b) in old.iter().rev().enumerate() {
+                if i < w {
+                    val[w - 1 - i] = *b;
+                }
+            }
+            let mut f = tlf(s.ty, w, if rng.chance(1, 5) { 1 } else { 0 });
+            f.extend_from_slice(&val);
+            body.splice(s.off..s.end, f);
+            Some(format!("rewidth(ty={},off={},{}->{})", s.ty, s.off, old.len(), w))
+        }
+        "substitute-field" => {
+            // replace a whole field by a well-formed field of (possibly) another type
+            let s = pick_site(rng, &|s| s.depth >= 1)?;
+            let f: Vec<u8> = match rng.below(8) {
+                0 => vec![0x01],
+                1 => vec![0x42, rng.byte()],
+                2 => {
+                    let w = rng.range(1, 8);
+                    let mut f = tlf(TY_UINT, w, 0);
+                    f.extend_from_slice(&rng.bytes(w));
+                    f
+                }
+                3 => {
+                    let w = rng.range(1, 8);
+                    let mut f = tlf(TY_INT, w, 0);
+                    f.extend_from_slice(&rng.bytes(w));
+                    f
+                }
+                4 => {
+                    let w = rng.range(0, 20);
+                    let mut f = tlf(TY_OCT, w, 0);
+                    f.extend_from_slice(&rng.bytes(w));
+                    f
+                }
+                5 => vec![0x72, 0x62, 0x01, 0x65, rng.byte(), rng.byte(), rng.byte(), rng.byte()],
+                6 => vec![0x65, rng.byte(), rng.byte(), rng.byte(), rng.byte()],
+                _ => vec![0x70 | rng.below(8) as u8],
+            };
+            let desc = crate::hexbytes::hex(&f[..f.len().min(4)]);
+            body.splice(s.off..s.end, f);
+            Some(format!("substitute-field(off={},new={}..)", s.off, desc))
+        }
+        "long-field" => {
+            // a primitive field that really is L bytes long (L around 2^8 / 2^16): the declared
+            // length is honest, only unusually large
+            let s = pick_site(rng, &|s| s.ty != TY_LIST && s.depth >= 1)?;
+            let l = *rng.pick(&[255usize, 256, 257, 258, 259, 260, 261, 262, 263, 264, 511, 512, 513, 65_535, 65_536, 65_537, 65_540]);
+            let mut f = tlf(s.ty, l, 0);
+            let fill = *rng.pick(&[0x00u8, 0x41, 0xff]);
+            f.extend(std::iter::repeat(fill).take(l));
+            body.splice(s.off..s.end, f);
+            Some(format!("long-field(ty={},off={},len={})", s.ty, s.off, l))
+        }
         "insert-junk" => {
             let at = rng.below(body.len() + 1);
             let n = rng.range(1, 4);
@@ -732,7 +801,7 @@ pub fn mutate_body(rng: &mut Rng, body: &mut Vec<u8>, op: &str) -> Option<String
 #[derive(Clone, Debug)]
 pub struct Emphasis {
     /// weights over STRUCT_OPS
-    pub ops: [usize; 12],
+    pub ops: [usize; 15],
     /// per cent of runs that stay valid (no mutation at all)
     pub valid: usize,
     /// per cent of mutated runs that also get un-resealed byte faults
@@ -743,7 +812,7 @@ pub struct Emphasis {
 impl Emphasis {
     pub fn balanced() -> Emphasis {
         Emphasis {
-            ops: [6, 4, 4, 4, 3, 3, 3, 6, 4, 4, 3, 3],
+            ops: [6, 4, 4, 4, 3, 3, 3, 6, 4, 4, 3, 3, 4, 5, 2],
             valid: 15,
             post: 35,
             max_entries: 40,
@@ -751,7 +820,7 @@ impl Emphasis {
     }
     pub fn inflation() -> Emphasis {
         Emphasis {
-            ops: [30, 1, 1, 1, 1, 1, 1, 2, 1, 1, 1, 10],
+            ops: [30, 1, 1, 1, 1, 1, 1, 2, 1, 1, 1, 10, 2, 2, 8],
             valid: 5,
             post: 10,
             max_entries: 20,
@@ -759,7 +828,7 @@ impl Emphasis {
     }
     pub fn mid_message() -> Emphasis {
         Emphasis {
-            ops: [6, 4, 3, 4, 3, 3, 3, 8, 4, 6, 3, 3],
+            ops: [6, 4, 3, 4, 3, 3, 3, 8, 4, 6, 3, 3, 3, 4, 1],
             valid: 10,
             post: 50,
             max_entries: 12,
@@ -850,7 +919,7 @@ pub fn gen_file_scn(rng: &mut Rng, _tier: Tier, prop: &str, em: &Emphasis) -> Fi
         sub: sub.into(),
         msgs,
         post,
-        extra_polls: *rng.pick(&[0usize, 1, 2, 5, 64]),
+        extra_polls: *rng.pick(&[0usize, 1, 2, 5, 64, 64, 300]),
         notes,
     }
 }
